@@ -20,8 +20,10 @@ def b_terms(job):
     rng = random.Random(job["seed"])
     tb = Table()
     A = arr_sort(INT, INT)
-    lines = ["sort U", "fun f U U", "fun g U U U", "fun P Bool U", "fun h Int Int", "fun k Real Real"]
-    sigdecl = {"f": (("U",), "U"), "g": (("U", "U"), "U"), "P": (("U",), BOOL), "h": ((INT,), INT), "k": ((REAL,), REAL)}
+    lines = ["sort U", "fun f U U", "fun g U U U", "fun P Bool U", "fun h Int Int", "fun k Real Real",
+             "fun ov U U", "fun ov U U U", "fun ov U U U U"]          # one name, three arities
+    sigdecl = {"f": (("U",), "U"), "g": (("U", "U"), "U"), "P": (("U",), BOOL), "h": ((INT,), INT), "k": ((REAL,), REAL),
+               "ov#1": (("U",), "U"), "ov#2": (("U", "U"), "U"), "ov#3": (("U", "U", "U"), "U")}
     pool = {BOOL: [], INT: [], REAL: [], "U": [], A: []}
     items = {}          # local id -> (table id of the reference term)
     reqs = []           # (local id, op, arg local ids, ref table id)
@@ -137,7 +139,11 @@ def b_terms(job):
                 if rng.random() < 0.15: args[1] = args[0]
                 add_mk(op, args)
         elif x < 0.8:
-            op = rng.choice(["uf:f", "uf:g", "uf:P", "uf:h", "uf:k"])
+            op = rng.choice(["uf:f", "uf:g", "uf:P", "uf:h", "uf:k", "uf:ov#1", "uf:ov#2", "uf:ov#3"])
+            if op.startswith("uf:ov") and rng.random() < 0.5:
+                # declaring an overload again must give the symbol that exists already
+                ar = int(op[-1])
+                lines.append("fun ov U" + " U" * ar)
             nm = op[3:]
             add_mk(op, [pick(s) for s in sigdecl[nm][0]])
         else:
